@@ -555,7 +555,7 @@ func init() {
 			return f
 		}
 		weirdHT := func(r *prng.R, fork bool) byte {
-			ht := prng.Pick(r, []byte{0x00, 0x04, 0x05, 0x1f, 0x20, 0x84})
+			ht := prng.Pick(r, []byte{0x00, 0x04, 0x05, 0x1f, 0x20, 0x84, 0x21, 0x22, 0x23, 0xa1, 0xa3, 0x30, 0x11})
 			if fork {
 				ht |= 0x40
 			}
